@@ -10592,26 +10592,31 @@ CK_RV SoftHSM::deriveDH
 					}
 				}
 
-				// Get the KCV
+				// Get the KCV of the derived value; the check value depends on
+				// the key type, so the key object must be of the matching class
+				SymmetricKey* kcvKey = NULL;
 				switch (keyType)
 				{
 					case CKK_GENERIC_SECRET:
-						secret->setBitLen(byteLen * 8);
-						plainKCV = secret->getKeyCheckValue();
+						kcvKey = new SymmetricKey(byteLen * 8);
 						break;
 					case CKK_DES:
 					case CKK_DES2:
 					case CKK_DES3:
-						secret->setBitLen(byteLen * 7);
-						plainKCV = ((DESKey*)secret)->getKeyCheckValue();
+						kcvKey = new DESKey(byteLen * 7);
 						break;
 					case CKK_AES:
-						secret->setBitLen(byteLen * 8);
-						plainKCV = ((AESKey*)secret)->getKeyCheckValue();
+						kcvKey = new AESKey(byteLen * 8);
 						break;
 					default:
 						bOK = false;
 						break;
+				}
+				if (kcvKey != NULL)
+				{
+					kcvKey->setKeyBits(secretValue);
+					plainKCV = kcvKey->getKeyCheckValue();
+					delete kcvKey;
 				}
 
 				if (isPrivate)
@@ -10945,26 +10950,31 @@ CK_RV SoftHSM::deriveECDH
 					}
 				}
 
-				// Get the KCV
+				// Get the KCV of the derived value; the check value depends on
+				// the key type, so the key object must be of the matching class
+				SymmetricKey* kcvKey = NULL;
 				switch (keyType)
 				{
 					case CKK_GENERIC_SECRET:
-						secret->setBitLen(byteLen * 8);
-						plainKCV = secret->getKeyCheckValue();
+						kcvKey = new SymmetricKey(byteLen * 8);
 						break;
 					case CKK_DES:
 					case CKK_DES2:
 					case CKK_DES3:
-						secret->setBitLen(byteLen * 7);
-						plainKCV = ((DESKey*)secret)->getKeyCheckValue();
+						kcvKey = new DESKey(byteLen * 7);
 						break;
 					case CKK_AES:
-						secret->setBitLen(byteLen * 8);
-						plainKCV = ((AESKey*)secret)->getKeyCheckValue();
+						kcvKey = new AESKey(byteLen * 8);
 						break;
 					default:
 						bOK = false;
 						break;
+				}
+				if (kcvKey != NULL)
+				{
+					kcvKey->setKeyBits(secretValue);
+					plainKCV = kcvKey->getKeyCheckValue();
+					delete kcvKey;
 				}
 
 				if (isPrivate)
@@ -11299,26 +11309,31 @@ CK_RV SoftHSM::deriveEDDSA
 					}
 				}
 
-				// Get the KCV
+				// Get the KCV of the derived value; the check value depends on
+				// the key type, so the key object must be of the matching class
+				SymmetricKey* kcvKey = NULL;
 				switch (keyType)
 				{
 					case CKK_GENERIC_SECRET:
-						secret->setBitLen(byteLen * 8);
-						plainKCV = secret->getKeyCheckValue();
+						kcvKey = new SymmetricKey(byteLen * 8);
 						break;
 					case CKK_DES:
 					case CKK_DES2:
 					case CKK_DES3:
-						secret->setBitLen(byteLen * 7);
-						plainKCV = ((DESKey*)secret)->getKeyCheckValue();
+						kcvKey = new DESKey(byteLen * 7);
 						break;
 					case CKK_AES:
-						secret->setBitLen(byteLen * 8);
-						plainKCV = ((AESKey*)secret)->getKeyCheckValue();
+						kcvKey = new AESKey(byteLen * 8);
 						break;
 					default:
 						bOK = false;
 						break;
+				}
+				if (kcvKey != NULL)
+				{
+					kcvKey->setKeyBits(secretValue);
+					plainKCV = kcvKey->getKeyCheckValue();
+					delete kcvKey;
 				}
 
 				if (isPrivate)
@@ -11904,30 +11919,32 @@ CK_RV SoftHSM::deriveSymmetric
 					}
 				}
 
-				// Get the KCV
-				SymmetricKey* secret = new SymmetricKey();
-				secret->setKeyBits(secretValue);
+				// Get the KCV; the check value depends on the key type,
+				// so the key object must be of the matching class
+				SymmetricKey* secret = NULL;
 				switch (keyType)
 				{
 					case CKK_GENERIC_SECRET:
-						secret->setBitLen(byteLen * 8);
-						plainKCV = secret->getKeyCheckValue();
+						secret = new SymmetricKey(byteLen * 8);
 						break;
 					case CKK_DES:
 					case CKK_DES2:
 					case CKK_DES3:
-						secret->setBitLen(byteLen * 7);
-						plainKCV = ((DESKey*)secret)->getKeyCheckValue();
+						secret = new DESKey(byteLen * 7);
 						break;
 					case CKK_AES:
-						secret->setBitLen(byteLen * 8);
-						plainKCV = ((AESKey*)secret)->getKeyCheckValue();
+						secret = new AESKey(byteLen * 8);
 						break;
 					default:
 						bOK = false;
 						break;
 				}
-				delete secret;
+				if (secret != NULL)
+				{
+					secret->setKeyBits(secretValue);
+					plainKCV = secret->getKeyCheckValue();
+					delete secret;
+				}
 
 				if (isPrivate)
 				{
